@@ -84,6 +84,14 @@ func TransformModuleFilesToModel( //nolint:funlen,gocognit,cyclop
 		if err != nil {
 			var syntaxError *multierror.Error
 			if errors.As(err, &syntaxError) {
+				// name the file the errors were found in, as the other errors of the merge do
+				for _, singleError := range syntaxError.Errors {
+					var dslError *OpenFgaDslSyntaxError
+					if errors.As(singleError, &dslError) {
+						dslError.File = module.Name
+					}
+				}
+
 				transformErrors = multierror.Append(transformErrors, syntaxError.Errors...)
 			}
 
